@@ -1,7 +1,7 @@
 (* C11_check.v — case types, model runners and executable property for the C11 correspondence:
    one real plugin per oracle over a real ccipChainReader limited to the oracle's role chains; Observation of
    oracle i (canonicalised) and the verdicts of every oracle j's ValidateObservation on it. *)
-Require Export Verif.Model.Base Verif.Model.Roles.
+Require Export Verif.Model.Base Verif.Model.Roles Verif.Check.RolesHist_check.
 Require Import Verif.Proofs.RolesP.
 
 Definition fail_of (fl : list (N * N)) (k c : N) : bool := existsb (fun p => N.eqb (fst p) k && N.eqb (snd p) c) fl.
@@ -80,3 +80,23 @@ Definition ce_ok (x : ce_in) (o : ce_out) : bool :=
   | _ => false
   end.
 Definition ce_judge := judge ce_model ce_oeqb ce_ok (fun _ => 0%N).
+
+(* ---- sinks C11_commit_hist / C11_exec_hist: long-lived plugins (one per oracle) on real home-chain pollers while the
+   CCIPHome configuration changes between rounds.  Input: (history context, round input) — the round input is the one
+   of C11_commit / C11_exec without the role configuration; the role configuration is whatever the poller holds after
+   the poll results of the context.  The model goes through the poller's state machine; the property is evaluated on
+   the configuration of the most recent successful poll alone. ---- *)
+Definition cch_in := (hctx * (list (N * N) * rstate * N * bool * N))%type.
+Definition cch_at (g : cfg) (x : cch_in) : cc_in := let '(fl, st, phase, retry, i) := snd x in (g, fl, st, phase, retry, i).
+Definition cch_model (x : cch_in) : cc_out := cc_model (cch_at (hctx_model (fst x)) x).
+Definition cch_ok (x : cch_in) (o : cc_out) : bool := cc_ok (cch_at (hctx_spec (fst x)) x) o.
+Definition cch_judge := judge cch_model cc_oeqb cch_ok (fun _ => 0%N).
+
+Definition ceh_in := (hctx * (list (N * N) * rstate * N * N))%type.
+Definition ceh_at (g : cfg) (x : ceh_in) : ce_in := let '(fl, st, phase, i) := snd x in (g, fl, st, phase, i).
+Definition ceh_model (x : ceh_in) : ce_out := ce_model (ceh_at (hctx_model (fst x)) x).
+Definition ceh_ok (x : ceh_in) (o : ce_out) : bool := ce_ok (ceh_at (hctx_spec (fst x)) x) o.
+Definition ceh_judge := judge ceh_model ce_oeqb ceh_ok (fun _ => 0%N).
+
+(* the API sink of the history parts (judge shared with the other roles property) *)
+Definition api_judge := Verif.Check.RolesHist_check.api_judge.
